@@ -71,6 +71,30 @@ func (in *instr) ownerOf(v *types.Var) string {
 	return in.owners[v]
 }
 
+// mapFieldSel reports whether e selects a map-typed field of a repository struct,
+// whatever the root is: the contents of a map stay shared when the struct that
+// holds the map header has been copied (e.g. a method with a value receiver).
+func (in *instr) mapFieldSel(e ast.Expr) (*ast.SelectorExpr, accessInfo, bool) {
+	sel, ok := e.(*ast.SelectorExpr)
+	if !ok || !in.isMapType(e) || !pureExpr(sel.X) {
+		return nil, accessInfo{}, false
+	}
+	s := in.info().Selections[sel]
+	if s == nil || s.Kind() != types.FieldVal {
+		return nil, accessInfo{}, false
+	}
+	v, ok := s.Obj().(*types.Var)
+	if !ok || v.Pkg() == nil || !strings.HasPrefix(v.Pkg().Path(), modPath+"/") {
+		return nil, accessInfo{}, false
+	}
+	owner := in.ownerOf(v)
+	if owner == "" {
+		return nil, accessInfo{}, false
+	}
+	loc := owner + "." + v.Name()
+	return sel, accessInfo{loc: loc, site: loc + "@" + in.funcName}, true
+}
+
 // fieldSel reports whether e is an instrumentable field selection.
 func (in *instr) fieldSel(e ast.Expr) (*ast.SelectorExpr, accessInfo, bool) {
 	sel, ok := e.(*ast.SelectorExpr)
@@ -133,6 +157,21 @@ func (in *instr) isMapType(e ast.Expr) bool {
 	}
 	_, isMap := tv.Type.Underlying().(*types.Map)
 	return isMap
+}
+
+// cloneSel copies a pure selector chain (the copy is evaluated after the statement).
+func cloneSel(e ast.Expr) ast.Expr {
+	switch x := e.(type) {
+	case *ast.Ident:
+		return ast.NewIdent(x.Name)
+	case *ast.SelectorExpr:
+		return &ast.SelectorExpr{X: cloneSel(x.X), Sel: ast.NewIdent(x.Sel.Name)}
+	case *ast.ParenExpr:
+		return &ast.ParenExpr{X: cloneSel(x.X)}
+	case *ast.StarExpr:
+		return &ast.StarExpr{X: cloneSel(x.X)}
+	}
+	return e
 }
 
 func addrOf(e ast.Expr) ast.Expr { return &ast.UnaryExpr{Op: token.AND, X: e} }
@@ -199,10 +238,10 @@ func (in *instr) instrumentBody(body *ast.BlockStmt) {
 				in.stats["field_writes"]++
 			}
 		case *ast.IndexExpr:
-			if sel, ai, ok := in.fieldSel(unparen(x.X)); ok {
+			if sel, ai, ok := in.mapFieldSel(unparen(x.X)); ok {
 				ai2 := accessInfo{loc: ai.loc + "[]", site: ai.loc + "[]@" + in.funcName}
 				wp.pre = append(wp.pre, in.stmtCall("Pre", strLit(ai2.loc), strLit(ai2.site)))
-				wp.post = append(wp.post, in.stmtCall("WM", addrOf(sel), strLit(ai2.loc), strLit(ai2.site)))
+				wp.post = append(wp.post, in.stmtCall("MW", cloneSel(sel), strLit(ai2.loc), strLit(ai2.site)))
 				storeIndex[sel] = true
 				in.stats["content_writes"]++
 			}
@@ -230,21 +269,21 @@ func (in *instr) instrumentBody(body *ast.BlockStmt) {
 			// delete(x.f, k)
 			if call, ok := s.X.(*ast.CallExpr); ok {
 				if id, ok := call.Fun.(*ast.Ident); ok && id.Name == "delete" && len(call.Args) == 2 {
-					if sel, ai, ok := in.fieldSel(unparen(call.Args[0])); ok {
+					if sel, ai, ok := in.mapFieldSel(unparen(call.Args[0])); ok {
 						ai2 := accessInfo{loc: ai.loc + "[]", site: ai.loc + "[]@" + in.funcName}
 						writes[s] = &writePlan{
 							pre:  []ast.Stmt{in.stmtCall("Pre", strLit(ai2.loc), strLit(ai2.site))},
-							post: []ast.Stmt{in.stmtCall("WM", addrOf(sel), strLit(ai2.loc), strLit(ai2.site))},
+							post: []ast.Stmt{in.stmtCall("MW", cloneSel(sel), strLit(ai2.loc), strLit(ai2.site))},
 						}
 						in.stats["content_writes"]++
 					}
 				}
 			}
 		case *ast.RangeStmt:
-			if sel, ai, ok := in.fieldSel(unparen(s.X)); ok && in.isMapType(s.X) {
+			if sel, ai, ok := in.mapFieldSel(unparen(s.X)); ok {
 				lhs[sel] = true // not wrapped (the map-range rewrite needs the plain expression)
 				ai2 := accessInfo{loc: ai.loc + "[]", site: ai.loc + "[]@" + in.funcName}
-				rangeReads[s] = []ast.Stmt{in.stmtCall("RMs", addrOf(sel), strLit(ai2.loc), strLit(ai2.site))}
+				rangeReads[s] = []ast.Stmt{in.stmtCall("MCs", cloneSel(sel), strLit(ai2.loc), strLit(ai2.site))}
 				in.stats["content_reads"]++
 			}
 		}
@@ -252,6 +291,7 @@ func (in *instr) instrumentBody(body *ast.BlockStmt) {
 	})
 
 	plan := accessPlan{reads: map[*ast.SelectorExpr]accessInfo{}, mapReads: map[*ast.SelectorExpr]bool{}}
+	contentReads := map[ast.Node]accessInfo{} // IndexExpr / len() call -> contents location
 	ast.Inspect(body, func(n ast.Node) bool {
 		switch x := n.(type) {
 		case *ast.SelectorExpr:
@@ -262,13 +302,13 @@ func (in *instr) instrumentBody(body *ast.BlockStmt) {
 				plan.reads[sel] = ai
 			}
 		case *ast.IndexExpr:
-			if sel, _, ok := in.fieldSel(unparen(x.X)); ok && in.isMapType(x.X) && !storeIndex[sel] {
-				plan.mapReads[sel] = true
+			if sel, ai, ok := in.mapFieldSel(unparen(x.X)); ok && !storeIndex[sel] {
+				contentReads[x] = accessInfo{loc: ai.loc + "[]", site: ai.loc + "[]@" + in.funcName}
 			}
 		case *ast.CallExpr:
 			if id, ok := x.Fun.(*ast.Ident); ok && (id.Name == "len") && len(x.Args) == 1 {
-				if sel, _, ok := in.fieldSel(unparen(x.Args[0])); ok && in.isMapType(x.Args[0]) {
-					plan.mapReads[sel] = true
+				if _, ai, ok := in.mapFieldSel(unparen(x.Args[0])); ok {
+					contentReads[x] = accessInfo{loc: ai.loc + "[]", site: ai.loc + "[]@" + in.funcName}
 				}
 			}
 		}
@@ -277,6 +317,17 @@ func (in *instr) instrumentBody(body *ast.BlockStmt) {
 
 	// 2. rewrite reads bottom-up
 	astutil.Apply(body, nil, func(c *astutil.Cursor) bool {
+		if ai, ok := contentReads[c.Node()]; ok {
+			in.stats["content_reads"]++
+			in.needVrt = true
+			switch n := c.Node().(type) {
+			case *ast.IndexExpr:
+				n.X = &ast.CallExpr{Fun: vrtSel("MC"), Args: []ast.Expr{n.X, strLit(ai.loc), strLit(ai.site)}}
+			case *ast.CallExpr:
+				n.Args[0] = &ast.CallExpr{Fun: vrtSel("MC"), Args: []ast.Expr{n.Args[0], strLit(ai.loc), strLit(ai.site)}}
+			}
+			return true
+		}
 		sel, ok := c.Node().(*ast.SelectorExpr)
 		if !ok {
 			return true
@@ -291,10 +342,6 @@ func (in *instr) instrumentBody(body *ast.BlockStmt) {
 			return true
 		}
 		fn := "R"
-		if plan.mapReads[sel] {
-			fn = "RM"
-			in.stats["content_reads"]++
-		}
 		in.stats["field_reads"]++
 		c.Replace(in.wrapRead(sel, ai, fn))
 		return true
